@@ -493,20 +493,20 @@ _NOTE = ("Trusted: Coq kernel, extraction (ExtrOcamlBasic), ocaml/Pop_driver.ml,
 _TECH = "Coq proof (induction over op histories, invariants) + extraction-based differential correspondence + direct oracles"
 META_C02 = {
     "text": "Theorems (Coq, closed under the global context; all trees, payload assignments, failing positions (n,k), scorers, "
-            "histories): every state reachable by connectBlock / setState / comparePopScore is 'quiet' (tree well formed, tip "
-            "applied, appliedBlockCount = length of root..tip) and there EXACTLY root..tip is flagged applied. "
-            "CommandGroup::execute and applyBlock are atomic, unExecute/unapplyBlock exact inverses. setState is proved "
-            "COMPLETELY: it never reaches an assert for any known target (C02_setState_never_aborts); true => target is tip, "
-            "exactly root..target applied; false => tip, counter, the applied flag of every block unchanged and P unchanged as a "
-            "multiset; nothing but validity marks changes and only on the target branch (levels raised only on "
-            "ancestors-or-self of the target, FAILED_POP only there, FAILED_CHILD only on proper descendants of a branch block "
-            "that got FAILED_POP). comparePopScore: result >= 0 => tip, counter, applied flags and P unchanged; result < 0 => "
-            "candidate is tip, exactly root..candidate applied; marks only on the candidate branch. _partial "
-            "(C02_compare_atomic_partial): that comparePopScore itself reaches no assert is not proved (needs the "
-            "two-applied-chains analogue of the single-chain lemmas). That clause is covered by the direct oracle on the "
-            "implementation (an assert aborts the harness and is reported with the history; full ALT/VBK/BTC snapshot "
-            "before/after every call, enumeration of the failing group position) and by the step-by-step correspondence with "
-            "the extracted model.",
+            "histories; no _partial left): every state reachable by connectBlock / setState / comparePopScore is 'quiet' (tree "
+            "well formed, tip applied, appliedBlockCount = length of root..tip) and there EXACTLY root..tip is flagged applied. "
+            "CommandGroup::execute and applyBlock are atomic, unExecute/unapplyBlock exact inverses. setState, comparePopScore "
+            "and connectBlock never reach an assert of the modelled code from a reachable state, for any known target / "
+            "candidate (valid, failing at any position next to the active chain or alone, already invalid, ahead, behind, on a "
+            "fork, unknown). setState: true => target is tip, exactly root..target applied; false => tip, counter, the applied "
+            "flag of every block unchanged and P unchanged as a multiset. comparePopScore: result >= 0 => tip, counter, applied "
+            "flags and P unchanged; result < 0 => candidate is tip, exactly root..candidate applied. Both change nothing but "
+            "validity marks and only on the target/candidate branch (levels raised only on ancestors-or-self of the target, "
+            "FAILED_POP only there, FAILED_CHILD only on proper descendants of a branch block that got FAILED_POP). Outside the "
+            "model (the real VBK/BTC trees below the command interface, finalization, altchain invalidate/revalidate, the tip "
+            "candidate set) the property is checked on the implementation: full ALT/VBK/BTC snapshot before/after every call "
+            "with the allowance of DESIGN section 7 under enumeration of the failing group position, and the step-by-step "
+            "correspondence with the extracted model.",
     "note": _NOTE, "technique": _TECH,
 }
 META_C01 = {
